@@ -17,6 +17,7 @@ RULE = ("explicit-state exploration of call histories on real objects: state = p
         "history and poison, I6 no direct malloc/free from inside libmpir while a custom allocator is installed (LD_PRELOAD wrapper). Plus "
         "lifecycle sequences (init/init2/inits/init_set*/clear/clears, randstate, mpz_array-free string returns) with block accounting, and stream "
         "inputs that end early. states = distinct (function, argument tuple, history, poison); transitions = real calls.")
+RULE = RULE + (" " + "Later additions: every (function, alias partition) pair of the aliasing table checked for well-formedness; an --enable-alloca=debug pass in which every TMP block is visible to the block accounting; random fills into destinations of exactly the needed size for MT and 21 LC parameter sets; every token length 1..1200 through the stream readers; parsers fed one defect at every position incl. bytes >= 0x80; the explorer's global memory monitor runs after every case.")
 ASSUMPTIONS = ["allocation failure is outside the property (the default handler aborts)", "functions the manual marks obsolete and raw-pointer accessors are driven by dedicated sequences, not the generic table",
                "AddressSanitizer cannot see inside assembly kernels: guard bytes around every block cover those"]
 BUDGET = {"quick": 540, "thorough": 3000}
